@@ -86,8 +86,11 @@ def handlers():
             return Lookup(a[0].v + "_<computed>")
         raise Unsupported("get_lookup with computed arguments: %s" % U(e))
 
+    def get_table_number(ki, e, st):
+        return GExpr.of(Poly.sym("table_number", U(e.args[-1])))
+
     return {"get_fluid": get_fluid, "get_from_nodes_corrected": gfc, "get_to_nodes_corrected": gtc,
-            "get_net_option": opt, "get_lookup": get_lookup}
+            "get_net_option": opt, "get_lookup": get_lookup, "get_table_number": get_table_number}
 
 
 def options_val(friction_model="nikuradse", use_numba=False):
